@@ -1087,9 +1087,9 @@ func run(c *vf.Ctx) {
 		return
 	}
 	c.SetRule("one evaluation = one run: a fresh reactive Variable / Set / Event driven by 1-4 seeded writer goroutines (Set, Compute, DefaultTo; Add, Delete, AddAll, DeleteAll, Apply, Compute, Replace; Trigger) racing with 1-6 goroutines that subscribe and unsubscribe at seeded points (with/without triggerWithInitialZeroValue, slow callbacks), checked after join against the writers' own chain / returned mutations / exact single-writer model; runs are distinct by construction (run seed); distinct_nontrivial counts runs in which at least one OnUpdate/OnTrigger call overlapped (by logical ticks) a value-changing write")
-	total := c.Pick(20000, 250000)
+	total := c.Pick(20000, 600000)
 	share := map[string]int{"var": total * 45 / 100, "set": total * 45 / 100, "event": total * 10 / 100}
-	chunk := c.Pick(500, 4000)
+	chunk := c.Pick(500, 6000)
 	var jobs []job
 	for _, scn := range scenarios {
 		n := share[scn]
